@@ -33,7 +33,7 @@ enum Kind { A B }
 input Filter { kind: Kind = A name: String nested: Filter ids: [ID!] }
 scalar Version
 directive @all repeatable on SCHEMA | SCALAR | OBJECT | FIELD_DEFINITION | ARGUMENT_DEFINITION | INTERFACE | UNION | ENUM | ENUM_VALUE | INPUT_OBJECT | INPUT_FIELD_DEFINITION
-directive @one(n: Int = 1, k: Kind) on SCHEMA | SCALAR | OBJECT | FIELD_DEFINITION | ARGUMENT_DEFINITION | INTERFACE | UNION | ENUM | ENUM_VALUE | INPUT_OBJECT | INPUT_FIELD_DEFINITION
+directive @one(n: Int = 1, k: Kind, f: Filter) on SCHEMA | SCALAR | OBJECT | FIELD_DEFINITION | ARGUMENT_DEFINITION | INTERFACE | UNION | ENUM | ENUM_VALUE | INPUT_OBJECT | INPUT_FIELD_DEFINITION
 directive @exec(x: Int) on FIELD | QUERY
 "#;
 
@@ -636,6 +636,12 @@ pub fn mutants(base: &TsDoc) -> Vec<(&'static str, String, TsDoc)> {
             ("ill-typed argument", dir("one", vec![("n", s("x"))])),
             ("unknown enum member", dir("one", vec![("k", Value::Enum(P::default(), "ZZ".into()))])),
             ("argument on a directive without arguments", dir("all", vec![("n", int(1))])),
+            // object literals for an input-object argument: a field the type does not define, alone (every defined
+            // field omitted), next to a known one, and one level down
+            ("unknown input field alone", dir("one", vec![("f", Value::Obj(P::default(), vec![(nm("zz"), int(1))]))])),
+            ("unknown input field next to a known one", dir("one", vec![("f", Value::Obj(P::default(), vec![(nm("name"), s("x")), (nm("zz"), int(1))]))])),
+            ("unknown nested input field", dir("one", vec![("f", Value::Obj(P::default(), vec![(nm("nested"), Value::Obj(P::default(), vec![(nm("zz"), int(1))]))]))])),
+            ("ill-typed input field", dir("one", vec![("f", Value::Obj(P::default(), vec![(nm("name"), int(1))]))])),
         ] {
             let mut m = base.clone();
             dirs_at(&mut m, &site).push(d);
